@@ -83,3 +83,10 @@ Example C15_books_nonvacuous :
                           PFreeBlocker2; PStopWaited; PStopCloseAll; PLinkEnd 5]%nat = Some s /\
             x_links s = [] /\ x_acc s = ADone /\ x_table s = [] /\ x_open s = [].
 Proof. eexists. split; [vm_compute; reflexivity|]. repeat split. Qed.
+
+(** a populate entry that replaces a proxy stops the old incarnation - directly in the branch that found
+    it, before the replacement is started or filed, whatever the replacement's address and enabled flag
+    (regenerated from ProxyCollection.AddOrReplace); what stop() then guarantees is the lifecycle theorem *)
+Theorem C15_replace_stops_the_old_proxy : replace_stops_the_old_proxy = true.
+Proof. reflexivity. Qed.
+Print Assumptions C15_replace_stops_the_old_proxy.
